@@ -13,7 +13,8 @@ A *timed run* is a list of `Step`s: consecutive enabled blocks from a start stat
   `async_register_service`; the link trace dates `reg` at the call); a step after which it no longer holds one yields `unreg`
   at that instant (that is how the harness logs `unregister` and `close`);
 * every datagram emitted yields a `send` whose items are the well-formed PTR records it carries (type PTR, class IN) with
-  their TTLs — exactly what `harness/c07.py:abstract` extracts — and whose destination is the block's route (`dstOf`: the
+  their TTLs — what `harness/c07.py:abstract` extracts, except that `abstract` sets `full` only when an address record of the SRV
+  *target* is present and `fullFor` accepts any address record (unchecked correspondence) — and whose destination is the block's route (`dstOf`: the
   multicast group for everything but the query handler's immediate answer, by the generated leaves of `Zc.Gen.Link`).
 
 Names are mapped to link identities by a `Naming` (host number, numbering of lower-cased type and instance names).
